@@ -605,6 +605,12 @@ def ghost_zero_key():
     _symbolic_only()
 
 
+def same(a, b):
+    """a and b are the very same value (object identity / structural equality of the modelled value);
+    unlike ==, a NaN is the same as itself and 1 is not the same as True"""
+    _symbolic_only()
+
+
 def at(seq, i):
     """seq[i] as a total function of i (loop invariants quantify over all i; range guards are explicit)"""
     _symbolic_only()
